@@ -108,6 +108,18 @@ EMPHASIS['10'] = EMPHASIS['8'] + (' (Two previous rounds already worked under th
                                      'the same result disagree is especially welcome.)')
 
 
+EMPHASIS['11'] = EMPHASIS['8'] + (' (Three previous rounds already worked under this rule; the list below includes '
+                                     'their edits.) In addition, this time make the MANIFEST CONDITION numerical or '
+                                     'structural rather than a rare option: a threshold on a size (more than 1, 2, 12, 20, '
+                                     '64, 256, 1000, 50000 of something; a second batch / chunk / file / probe / call), a '
+                                     'particular value relation (two equal values, a value equal to a bound, an id equal to '
+                                     'a count, a negative or zero value, a value that is not exactly representable), a '
+                                     'dtype width (uint8 / int16 / float32 versus 64-bit), or an aliasing relation (the '
+                                     'result shares memory with an input or with an earlier result; a returned array that a '
+                                     'later call overwrites; an input array modified in place). Both changes must still be '
+                                     'invisible to ordinary small-sample use.')
+
+
 def touched_functions(pid):
     """Function / class names that appear in the hunk headers of the earlier patches of a property."""
     names = {}
@@ -162,7 +174,7 @@ def main():
             what = re.sub(r'^#\s*', '', m.get('what', ''))
             earlier.append('- %s: %s  %s' % (', '.join(m.get('files_changed', [])), what, notes))
         emphasis = EMPHASIS.get(rnd, EMPHASIS['default'])
-        if rnd in ('8', '9', '10'):
+        if rnd in ('8', '9', '10', '11'):
             tf = touched_functions(pid)
             emphasis += ' Already edited: ' + '; '.join(
                 '%s: %s' % (f, ', '.join(sorted(v))) for f, v in sorted(tf.items())) + '.'
